@@ -12,6 +12,9 @@ drv_unparse: line-protocol driver of the unparser model.
                                               OK <checkLines T|F> <lineStartsStable T|F> <tokensEdgeB T|F> <indentOK T|F>
   treeok   <ruleset> <indent> <tree>          tree-level hypotheses of the C20 theorems:
                                               OK <valAll lineSafe T|F> <valAll braceFree T|F> <no Case/Default T|F>
+  typedok  <ruleset> <indent> <tree>          tree-level hypotheses of pretty_lines_indented_typed /
+                                              pretty_text_ends_with_one_newline_typed:
+                                              OK <wfVal (es5Slot) T|F> <valAll endsOK T|F>
   rulesets                                    the rule set ids
 
 <ruleset>  id of Gen.Rules.ruleSets; <indent> = N (None) or an encoded string ('…);
@@ -21,6 +24,7 @@ Reply      OK [ [ text line col name source ] … ]  with None → N, NotImpleme
 -/
 import CalmVerif.Model.UnparseInst
 import CalmVerif.Model.UnparseAux
+import CalmVerif.Model.TokenAdj
 import CalmVerif.Util.Loop
 open CalmVerif CalmVerif.Unparse CalmVerif.Proto
 
@@ -116,6 +120,11 @@ def handle (line : String) : String :=
           let b (x : Bool) := if x then "T" else "F"
           "OK " ++ b (valAll lineSafe anyStr tree) ++ " " ++ b (valAll braceFree anyStr tree) ++ " " ++
             b (valAll anyStr notCaseKind tree)
+      else if cmd == "typedok" then
+        withTree rest fun tree =>
+          let b (x : Bool) := if x then "T" else "F"
+          "OK " ++ b (TokenAdj.wfVal (TokenAdj.mkCtx Gen.Rules.rs_indent []) tree) ++ " " ++
+            b (valAll endsOK anyStr tree)
       else if cmd == "unparseR" then
         match Val.parse rest with
         | some (names, rest') =>
